@@ -156,10 +156,10 @@ class C04(ApiScenario):
     prop = "C04"
     design_ref = "DESIGN.md 3.2, 4/C04"
     rule = ("case = small client program (1-3 watches incl. equal watches, 1-3 handlers with scripted re-entrant calls, 1-3 API actors over schedule/unschedule/"
-            "add/remove handler/unschedule_all/start/stop, scripted emitter event scripts) + scheduler configuration, all from the run seed; distinct = distinct (program digest, "
+            "add/remove handler/unschedule_all/start/stop, scripted emitter event scripts, in a third of the runs with an event equal to the one before the previous one - X, Y, X) + scheduler configuration, all from the run seed; distinct = distinct (program digest, "
             "interleaving digest); non-trivial = at least one non-default scheduling decision was taken")
     level_text = ("Seeded search over client programs x interleavings (sticky/random/PCT d<=3, line-level pre-emption in api.py/bricks.py/utils) of the real BaseObserver with scripted "
-                  "emitters; history oracle with MUST / MAY / MUST-NOT: at most one callback per (handler, event), per-watch order, delivery by the next quiescent barrier to every "
+                  "emitters; history oracle with MUST / MAY / MUST-NOT: at most one callback per (handler, queued event) - counted as a multiset where an emitter repeats an event non-consecutively -, per-watch order, delivery by the next quiescent barrier to every "
                   "certainly-registered handler, never to a handler certainly not registered for the watch; dispatcher/emitter threads never die with an exception.")
     level_note = "PCT gives the per-run hit probability for races of depth<=3; not exhaustive. Oracle speaks only about the harness's own invoke/return/queue/callback sequence numbers."
 
@@ -216,7 +216,7 @@ class C05(ApiScenario):
 class C06(ApiScenario):
     prop = "C06"
     design_ref = "DESIGN.md 3.2, 4/C06"
-    rule = (C04.rule + "; half of the programs end with an extra stop() of the harness, the others with their own last stop() (+ join() when the observer was started); 12% call start() a second time; every fourth run index uses the REAL inotify emitter (real kernel behind the shim) or the real "
+    rule = (C04.rule + "; half of the programs end with an extra stop() of the harness, the others with their own last stop() (+ join() when the observer was started); 12% call start() a second time; 1% are a flood (one scripted emitter queues 1500/5000/9000 events while the only handler sleeps, then stop() / unschedule() / unschedule_all()); every fourth run index uses the REAL inotify emitter (real kernel behind the shim) or the real "
             "polling emitter on a real scratch tree: 1-3 application threads issue schedule/unschedule/unschedule_all/start/stop and file-system operations concurrently, a handler may call "
             "stop()/unschedule_all()/schedule() from its first callback, the root may be removed before stop(), the observer timeout is drawn from {1, 0.25, 0.05} s and entries are moved out of the tree "
             "(an emitter inside the pairing delay when stop() arrives)")
@@ -305,7 +305,7 @@ class C13(Scenario):
     design_ref = "DESIGN.md 3.2, 4/C13"
     budget = {"quick": 20, "thorough": 420, "minimise": 40}
     rule = ("case = sequential API call sequence from the valid domain over <=3 watch specs (equal watches, filters as part of identity) and <=3 handlers, with an emitter "
-            "construction/start failure injected at one or two of the emitter constructions the sequence performs (every construction position is hit in turn across run "
+            "construction/start failure injected at one or two of the emitter constructions the sequence performs, replacements of an emitter that has stopped itself (operation 'end') included (every construction position is hit in turn across run "
             "indices), checked after every call against a reference map; distinct = distinct call-sequence+fault digests; non-trivial = a fault fired or a pre-emption was taken")
     level_text = ("Reference-model refinement under fault enumeration: after every call the emitters reported equal the model's watch set (one per key, alive iff running) and a unique "
                   "marker queued through each emitter reaches exactly the model's handler set; a schedule() that raised changes nothing.")
